@@ -59,9 +59,9 @@ Definition lowerhex (n : N) : N := if n <? 10 then 48 + n else 87 + n.
 Definition hex2 (b : N) : str := [lowerhex (b / 16); lowerhex (b mod 16)].
 Definition hex4 (r : N) : str :=
   [lowerhex ((r / 4096) mod 16); lowerhex ((r / 256) mod 16); lowerhex ((r / 16) mod 16); lowerhex (r mod 16)].
-Definition hex8 (r : N) : str :=
-  [lowerhex ((r / 268435456) mod 16); lowerhex ((r / 16777216) mod 16);
-   lowerhex ((r / 1048576) mod 16); lowerhex ((r / 65536) mod 16)] ++ hex4 r.
+(* for s := 28; s >= 0; s -= 4 { lowerhex[r>>s & 0xF] }: the high four digits are
+   the four digits of r >> 16, the low four those of r & 0xFFFF *)
+Definition hex8 (r : N) : str := hex4 (r / 65536) ++ hex4 (r mod 65536).
 
 (* strconv.IsPrint, Latin-1 fast path *)
 Definition latin1_print (r : N) : bool :=
